@@ -370,6 +370,11 @@ def _run_unit(unit, tier, want_props=None, logdir=None, seed=0):
     if res is None:
         raise Undecided("Verus produced no result JSON (rc=%s): %s" % (rc, out[-1500:]))
     vr = res.get("verification-results", {})
+    rustc_errs = [d for d in _error_diags(diags) if d.get("code")]
+    if rustc_errs:
+        # rustc-level errors (unknown method / type mismatch after an edit to /repo): nothing was verified
+        raise Undecided("the unit no longer compiles for Verus (code edited beyond the extracted functions?): %s"
+                        % "; ".join("%s %s" % ((d.get("code") or {}).get("code", ""), d.get("message", "")[:160]) for d in rustc_errs[:3]))
     if vr.get("encountered-vir-error") or (not vr.get("success") and not _error_diags(diags)):
         msgs = "; ".join(d.get("message", "") for d in diags if d.get("level") == "error")[:1500]
         raise Undecided("Verus could not process the unit (dialect / type error, not a proof failure): %s" % msgs)
